@@ -70,7 +70,10 @@ STROPT_SRC = '''
 def run(v, O):
     out = []
     for label, text, ok in v.cases:
-        r = outcome(lambda: dip_parse(text))
+        if isinstance(text, tuple):      # two parses: the second text continues on top of the first environment
+            r = outcome(lambda: dip_parse(text[1], dip_parse(text[0])))
+        else:
+            r = outcome(lambda: dip_parse(text))
         out.append((f'{label}: ' + ('accepted' if ok else 'rejected'), O.same(r[0] == 'ok', ok)))
         if not ok and r[0] != 'ok':
             out.append((f'{label}: constraint message', O.same(any(m in r[1] for m in v.messages), True)))
@@ -85,7 +88,8 @@ def run(v, O):
     expr = {'lt': '{?} < B', 'le': '{?} <= B', 'gt': '{?} > B', 'ge': '{?} >= B', 'eq': '{?} == B', 'ne': '{?} != B',
             'range': 'L < {?} && {?} < B', 'or': '{?} < L || {?} > B', 'rev': 'B > {?}',
             'orand': '{?} < B || {?} > L && {?} < L',         # && binds tighter than ||: the second part can never hold
-            'andor': '{?} > L && {?} < L || {?} < B'}[v.op]
+            'andor': '{?} > L && {?} < L || {?} < B',
+            'andeq': '{?} > L && {?} == B', 'eqand': '{?} == B && {?} > L', 'oreq': '{?} < L || {?} == B', 'andne': '{?} > L && {?} != B'}[v.op]
     lo = v.lo if hasattr(v, 'lo') else None
     if getattr(v, 'refbound', False):
         expr = expr.replace('B', '{?lim}')
@@ -97,6 +101,11 @@ def run(v, O):
         lines = [f'lim {v.dtype} = {bt}'] + lines
     final = v.v0
     for i in range(v.nmods):
+        if getattr(v, 'modbound', False):
+            # the node the condition refers to is modified, the constrained node itself stays untouched
+            b = getattr(v, f'm{i}') * (fb / fu)
+            lines.append(f'lim = {O.lit(getattr(v, f"m{i}"))}')
+            continue
         final = getattr(v, f'm{i}')
         lines.append(f'w = {O.lit(final)}')
     if getattr(v, 'twostep', False):
@@ -121,6 +130,12 @@ def run(v, O):
         strict = O.or_(st('lt', x, lo), st('gt', x, b)); tolerant = O.or_(to('lt', x, lo), to('gt', x, b))
     elif v.op in ('orand', 'andor'):
         strict, tolerant = st('lt', x, b), O.or_(to('lt', x, b), O.and_(to('gt', x, lo), to('lt', x, lo)))
+    elif v.op in ('andeq', 'eqand'):
+        strict = O.and_(st('gt', x, lo), st('eq', x, b)); tolerant = O.and_(to('gt', x, lo), to('eq', x, b))
+    elif v.op == 'andne':
+        strict = O.and_(st('gt', x, lo), st('ne', x, b)); tolerant = O.and_(to('gt', x, lo), to('ne', x, b))
+    elif v.op == 'oreq':
+        strict = O.or_(st('lt', x, lo), st('eq', x, b)); tolerant = O.or_(to('lt', x, lo), to('eq', x, b))
     elif v.op == 'rev':
         strict, tolerant = st('gt', b, x), to('gt', b, x)
     else:
@@ -179,14 +194,14 @@ def scenarios(tier, seed):
                                   consts={'unit': unit, 'ounits': ous, 'listform': listform, 'nmods': nmods, 'dtype': 'float', 'same': True}, preamble=PRE,
                                   what=f'float node in {unit} whose options repeat one number under the units {ous}', samples=2))
     for unit, bunit in (('m', None), ('m', 'cm'), ('J', 'erg'), (None, None)):
-        for op in ('lt', 'le', 'gt', 'ge', 'eq', 'ne', 'range', 'or', 'rev', 'orand', 'andor'):
+        for op in ('lt', 'le', 'gt', 'ge', 'eq', 'ne', 'range', 'or', 'rev', 'orand', 'andor', 'andeq', 'eqand', 'oreq', 'andne'):
             for nmods in (0, 1):
                 for dtype in ('float', 'int'):
                     if dtype == 'int' and unit is not None:
                         continue
                     kind = 'real' if dtype == 'float' else 'int'
                     inp = {'v0': kind, 'b': kind}
-                    if op in ('range', 'or', 'orand', 'andor'):
+                    if op in ('range', 'or', 'orand', 'andor', 'andeq', 'eqand', 'oreq', 'andne'):
                         inp['lo'] = kind
                     inp.update({f'm{i}': kind for i in range(nmods)})
                     S.append(Scenario(f'condition/{dtype}/{unit}/{bunit}/{op}/{nmods}', COND_SRC, inp, consts={'unit': unit, 'bunit': bunit, 'op': op, 'nmods': nmods, 'dtype': dtype},
@@ -203,6 +218,12 @@ def scenarios(tier, seed):
         for op in ('lt', 'ge', 'eq', 'gt'):
             S.append(Scenario(f'condition-ref/{unit}/{bunit}/{op}', COND_SRC, {'v0': 'real', 'b': 'real'}, consts={'unit': unit, 'bunit': bunit, 'op': op, 'nmods': 0, 'dtype': 'float', 'refbound': True},
                               preamble=PRE, what=f'condition {op} against another node stored in {bunit or unit}', samples=2))
+    for unit, bunit in (('m', 'cm'), ('m', None), ('s', 'ms')):
+        for op in ('lt', 'ge', 'gt'):
+            for twostep in (False, True):
+                S.append(Scenario(f'condition-ref-modified/{unit}/{bunit}/{op}/{"two-parses" if twostep else "one-parse"}', COND_SRC, {'v0': 'real', 'b': 'real', 'm0': 'real'},
+                                  consts={'unit': unit, 'bunit': bunit, 'op': op, 'nmods': 1, 'dtype': 'float', 'refbound': True, 'modbound': True, 'twostep': twostep},
+                                  preamble=PRE, what=f'condition {op} against another node that is modified afterwards ({"in a second parse on top of the first environment" if twostep else "in the same text"})', samples=2))
     for form in ('both', 'min', 'max', 'exact', 'any'):
         for k in (1, 2, 4):
             S.append(Scenario(f'dimension/{form}/{k}', DIM_SRC, {'lo': 'int', 'hi': 'int'}, ['v.lo >= 0', 'v.hi >= 0', 'v.lo <= 9', 'v.hi <= 9'], consts={'form': form, 'k': k, 'k2': 0, 'lo2': 0, 'hi2': 0},
@@ -216,6 +237,9 @@ def scenarios(tier, seed):
                 ('str option after modification', "a str = dog\n  = cat\n  = dog\na = cat", True), ('str modified out of options', "a str = dog\n  = cat\n  = dog\na = cow", False),
                 ('format matches', "a str = 'Ferdinant'\n  !format '^[a-zA-Z]+$'", True), ('format fails', "a str = 'Ferdinant2'\n  !format '^[a-zA-Z]+$'", False),
                 ('format fails after modification', "a str = 'abc'\n  !format '^[a-z]+$'\na = 'ABC'", False), ('format ok after modification', "a str = 'abc'\n  !format '^[a-z]+$'\na = 'xyz'", True),
+                ('empty text against a format that needs a letter', 'a str = "abc"\n  !format "^[a-z]+$"\na = ""', False), ('empty text against a format that admits it', 'a str = "abc"\n  !format "^[a-z]*$"\na = ""', True),
+                ('empty single-quoted text against a fixed-length format', "a str = 'abc'\n  !format '^[a-z]{3}$'\na = ''", False), ('empty text against a non-empty format, two parses', ('a str = "abc"\n  !format "^.+$"', 'a = ""'), False),
+                ('empty text not among the options', 'a str = "cat"\n  !options ["cat","dog"]\na = ""', False),
                 ('format digits', "a str = '2023-01-02'\n  !format '^[0-9]{4}-[0-9]{2}-[0-9]{2}$'", True), ('format digits fail', "a str = '2023-1-02'\n  !format '^[0-9]{4}-[0-9]{2}-[0-9]{2}$'", False),
                 ('value of lower rank than declared', 'c int[2,3:] = [7,8]', False), ('scalar given to an array node', 'c int[2] = 5', False),
                 ('2-D node modified with a 1-D list', 'c int[2,2] = [[1,2],[3,4]]\nc = [5,6]', False),
@@ -269,7 +293,7 @@ def run_task(task):
     S = scenarios(task['tier'], task['seed'])
     i, k = task['slice']
     mine = S[i::k]
-    res = run_scenarios([s for s in mine if s.inputs], patches, timeout_ms=20000, seed=task['seed'], wall_s=900, max_paths=5000)
+    res = run_scenarios([s for s in mine if s.inputs], patches, timeout_ms=20000, seed=task['seed'], wall_s=900, max_paths=5000, div_zero='fork')
     res2 = run_scenarios([s for s in mine if not s.inputs], contextlib.nullcontext, timeout_ms=20000, seed=task['seed'])
     for key, val in res2.items():
         if key == 'stats':
